@@ -98,8 +98,16 @@ def case_failures(seed):
         if np.abs(m1 - m).max() > 1e-5 * peak:
             out.append(("additive_over_subsets", "model of the whole catalogue differs from the sum of the models of two subsets"))
     # mask mode
+    # (sigma mode: each source against its OWN noise level, which may be missing (NaN: nothing exceeds it) or zero)
+    rnd2 = random.Random(seed + 77)
+    for s_ in srcs:
+        s_.local_rms = rnd2.choice([0.05, 0.05, 0.2, float('nan'), 0.0, 0.01])
     for kw in (dict(frac=0.3), dict(sigma=5)):
-        mm = AeRes.make_model(srcs, shape, helper, mask=True, **kw)
+        try:
+            mm = AeRes.make_model(srcs, shape, helper, mask=True, **kw)
+        except Exception as e:
+            out.append(("mask_rule", "mask mode (%s) raised %r for noise levels %s" % (kw, e, [s_.local_rms for s_ in srcs])))
+            continue
         _, blank = reference(srcs, shape, helper, 'mask', **{'frac': kw.get('frac'), 'sigma': kw.get('sigma', 4)})
         if not np.array_equal(np.isnan(mm), blank) or np.nanmax(np.abs(np.nan_to_num(mm))) != 0:
             out.append(("mask_rule", "mask mode (%s) blanks %d pixels, the rule selects %d" % (kw, int(np.isnan(mm).sum()), int(blank.sum()))))
@@ -150,6 +158,20 @@ def residual_failures(seed):
                 out.append(("model_made_with_callers_options", "make_residual(mask=True, %s) blanks %d pixels, the rule selects %d" % (
                     kw, int(got.sum()), int(blank.sum()))))
                 break
+        # a catalogue with the standard column names and no column map, after calls that renamed columns (same process)
+        std = Table({k: [getattr(s_, k) for s_ in srcs] for k in ('ra', 'dec', 'peak_flux', 'a', 'b', 'pa')})
+        std['island'] = [s_.island for s_ in srcs]
+        std['source'] = [0] * len(srcs)
+        std['local_rms'] = [0.05] * len(srcs)
+        std.write(os.path.join(tmp, "std.fits"))
+        if os.path.exists(os.path.join(tmp, "std_res.fits")):
+            os.remove(os.path.join(tmp, "std_res.fits"))
+        AeRes.make_residual(os.path.join(tmp, "im.fits"), os.path.join(tmp, "std.fits"), os.path.join(tmp, "std_res.fits"))
+        if not os.path.exists(os.path.join(tmp, "std_res.fits")):
+            out.append(("model_made_with_callers_options", "make_residual without a column map wrote nothing for a catalogue with the default "
+                        "column names (after calls with renamed columns %s in the same process)" % sorted(names.values())))
+        elif np.abs((fits.getdata(os.path.join(tmp, "std_res.fits")) + ref) - data).max() > 2e-4 * max(1, peak):
+            out.append(("model_made_with_callers_options", "make_residual without a column map does not subtract the catalogue's model"))
         # the same catalogue modelled on a second image with another pixel grid, in the same process
         h2, scale2 = mk_header(rnd, (50, 64), 'TAN')
         helper2 = WCSHelper.from_header(h2)
